@@ -28,6 +28,30 @@ def load_attr(eng, obj, name, st, line=0):
             yield st, obj.pycls
             return
         raise Unsupported(f"attribute {name} of exception value")
+    from .engine import SuperProxy
+
+    if isinstance(obj, SuperProxy):
+        recv = obj.obj
+        rcls = recv.hint if isinstance(recv, SV) else type(recv)
+        if rcls is None or obj.owner not in inspect.getmro(rcls):
+            raise Unsupported(f"super().{name}: class of the receiver is not known")
+        mro = inspect.getmro(rcls)
+        for c in mro[mro.index(obj.owner) + 1:]:
+            if name in c.__dict__:
+                raw = c.__dict__[name]
+                if isinstance(raw, types.FunctionType):
+                    cl = eng.closure_of_live(raw)
+                    if cl is None:
+                        raise Unsupported(f"super().{name} without source")
+                    if cl.owner is None:
+                        cl.owner = c
+                    yield st, BoundMethod(recv, cl)
+                    return
+                if c is object and name == "__init__":
+                    yield st, Model("object.__init__", lambda e, s, a, k: iter([(s, None)]))
+                    return
+                raise Unsupported(f"super().{name} resolves to a non-function in {c.__name__}")
+        raise Unsupported(f"super().{name} not found")
     if isinstance(obj, (Closure, BoundMethod, Model)):
         if name == "__name__":
             yield st, getattr(obj, "name", "f")
